@@ -110,17 +110,29 @@ def _once(case, acc, nodes):
     if c10.tree_state(nodes) != before:
         raise Violation("export-modifies-tree", "JSON export modified the tree")
     # import
-    nodecls = {"AnyNode": AnyNode, "Node": Node}[case["cls"]]
+    nodecls = c10.NODECLS[case["cls"]]
     ikw = {}
     if case.get("pairs_hook"):
         ikw["object_pairs_hook"] = collections.OrderedDict
-    dictimporter = DictImporter(nodecls=nodecls) if (case["cls"] == "Node" or case.get("explicit_importer")) else None
+    dictimporter = DictImporter(nodecls=nodecls) if (case["cls"] != "AnyNode" or case.get("explicit_importer")) else None
     importer = JsonImporter(dictimporter=dictimporter, **ikw)
-    for how in ("import_", "read"):
+    for how in ("import_", "read", "import_", "import_"):
         root = importer.import_(text) if how == "import_" else importer.read(io.StringIO(text))
         compare_tree(root, ref, nodecls, case["sort_keys"])
         if root.parent is not None:
             raise Violation("import-root", "imported root has a parent")
+        # every import builds fresh values: editing one result in place must not show in the next import of the same text
+        stack = [root]
+        while stack:
+            node = stack.pop()
+            stack.extend(node.children)
+            for key, value in list(vars(node).items()):
+                if key.startswith("_NodeMixin"):
+                    continue
+                if isinstance(value, list):
+                    value.append("edited in place")
+                elif isinstance(value, dict):
+                    value["edited in place"] = True
     interesting = any(values.has_nonascii_or_container(v) for attrs in case["attrs"] for _, v in attrs)
     acc.nontrivial(len(nodes) >= 3 and bool(kwargs) and interesting)
     acc.tag("custom_dictexporter", dx is not None)
@@ -142,7 +154,7 @@ def attr_list(draw, cls):
 
 @st.composite
 def random_cases(draw):
-    cls = draw(st.sampled_from(["AnyNode", "AnyNode", "Node"]))
+    cls = draw(st.sampled_from(["AnyNode", "AnyNode", "Node", "LenAnyNode", "EqAnyNode"]))
     shape = draw(strategies.tree_shapes(max_nodes=20))
     size = shapes.shape_size(forest.to_tuple(shape))
     case = {
